@@ -917,5 +917,29 @@ def selftest():
     p3 = os.path.join(vlib.BUILD, "tmp", "selftest-engine.ndjson"); open(p3, "w").write("\n".join(json.dumps(c) for c in good) + "\n")
     rep = vh_replay("engine", p3, "selftest-engine", env_extra={"TZ": "UTC"})
     print("altered predictions reported: %d of %d" % (rep["n_mismatch"], len(good))); ok &= rep["n_mismatch"] == len(good)
+    # 3. the oracle-in-the-event traces: one observed cell altered / one extraction event's verdict of the regex crate altered
+    tp = vh_trace("extract", 400, "selftest-extract", seed_=7, env_extra={"TZ": "UTC"})
+    kx = dict(constants={"Dev": set()}, invariants=["TraceUnfinished"], post="TraceRejectedAt", extra={"constraint": "TrackProgress"})
+    acc, _ = validate_trace("Trace_Extract", tp, "selftest-extract-ok", **kx)
+    print("extract trace accepted:", acc); ok &= acc
+    ev = [json.loads(l) for l in open(tp)]
+    rows = [i for i, e in enumerate(ev) if e["ev"] == "extract" and not e["open"] and e["out"]["st"] == "row" and any(c["t"] == "text" and c["s"] for c in e["out"]["row"])]
+    i = rows[len(rows) // 2]
+    cor = json.loads(json.dumps(ev))
+    cell = next(c for c in cor[i]["out"]["row"] if c["t"] == "text" and c["s"])
+    cell["s"] = cell["s"][:-1]                      # the code "truncated" a captured text by one character
+    p4 = os.path.join(vlib.BUILD, "tmp", "selftest-extract-corrupt.ndjson"); open(p4, "w").write("\n".join(json.dumps(e) for e in cor) + "\n")
+    acc4, _ = validate_trace("Trace_Extract", p4, "selftest-extract-corrupt", **kx)
+    print("truncated captured text rejected:", not acc4); ok &= not acc4
+    tp = vh_trace("printer", 300, "selftest-printer", seed_=7, env_extra={"TZ": "UTC"})
+    kp = dict(constants={"Dev": set(), "Formats": {q("text")}, "ResultMenu": set(), "MaxCalls": 0}, invariants=["TraceUnfinished"], post="TraceRejectedAt", extra={"constraint": "TrackProgress"})
+    acc, _ = validate_trace("Trace_Printer", tp, "selftest-printer-ok", **kp)
+    print("printer trace accepted:", acc); ok &= acc
+    ev = [json.loads(l) for l in open(tp)]
+    i = next(j for j, e in enumerate(ev) if len(e["lines"]) >= 2)
+    cor = json.loads(json.dumps(ev)); cor[i]["lines"] = cor[i]["lines"][:-1]       # one printed line is lost
+    p5 = os.path.join(vlib.BUILD, "tmp", "selftest-printer-corrupt.ndjson"); open(p5, "w").write("\n".join(json.dumps(e) for e in cor) + "\n")
+    acc5, _ = validate_trace("Trace_Printer", p5, "selftest-printer-corrupt", **kp)
+    print("lost printed line rejected:", not acc5); ok &= not acc5
     print("SELFTEST", "ok" if ok else "FAILED")
     return 0 if ok else 1
